@@ -3,4 +3,4 @@ NEXT Next
 VIEW View
 ACTION_CONSTRAINT EmitEdge
 INVARIANTS TypeOK
-PROPERTIES AcceptNeedsAll DialNeedsConfirmation
+PROPERTIES AcceptNeedsAll DialNeedsConfirmation VerdictFunctionOfArguments
